@@ -87,6 +87,9 @@ B_ASSUME = [
 def run_C13(tier, seed):
     rep = D.Report("C13", tier, seed)
     L1.engine_b(rep, ["h_resolve_illegal", "h_resolve_legal", "h_witness_reaches_end"], 600 if tier == "quick" else 1800)
+    # "iter range mode on an enum with holes" presupposes that holes are recognised: the run
+    # splitting loop with symbolic discriminants (one run <=> consecutive values)
+    L1.engine_c(rep, 4 if tier == "quick" else 8, 600 if tier == "quick" else 1800)
     rep.extra["claimed_clauses"] = ["range without iter", "range with iter(mode=table_inline)", "iter(mode=range) on an enum with holes"]
     rep.extra["clauses_outside_the_claim"] = ["unknown/duplicate feature or parameter", "wrong value kind", "mode/visibility whitelist", "variant-level attribute (all in the HashMap/syn parser, not encodable)"]
     return D.finish(rep, "one obligation = one Engine B harness; each covers ALL configurations in one query; non-trivial = the three illegal shapes are each reachable (cover witnesses)",
